@@ -52,7 +52,14 @@ claim('C12', 'path-sensitive event pairing over every grammar function + drop-el
       'Partial: no Marker can be dropped uncompleted and every start_node is matched by finish_node on every path of all 49 node-opening grammar functions (an unbalanced stream panics the tree builder); token events, source cursor and sink output advance 1:1 and the sink emits exactly source[token.range]; trivia flushed before every token/finish; parse/lex reach no ambient state; all three grammar recursion components are depth-guarded; ParseError ranges come from the current token. Termination of recovery loops, tiling of lexer ranges and trivia-insertion invariance are not decided.',
       _TB, 'DESIGN.md section 4 / C12')
 
+claim('C05', 'call-graph reachability over three crates + order-revealing hash-container rule + ambient-source rule with reviewed table',
+      'Claimed: in the 4 900 local bodies reachable (over-approximately, including salsa tracked functions and fn-pointer dispatch) from compile, encode and execute_cycle there is no iteration over a randomly seeded hash container, no clock/env/RNG/thread-id/address source outside the 13 reviewed sites, and the encoder iterates ordered containers only. Two processes therefore cannot differ through those channels. Float formatting and external crates are not decided.',
+      _TB, 'DESIGN.md section 4 / C05')
+claim('C06', 'sort-key extraction from closure MIR + dominance/loop rules on the scheduling loop + sibling agreement',
+      'Partial: the ready list is sorted by exactly (priority, due time, declaration index); scheduling precedes the task loop, tasks precede background programs, each ready entry and each program/FB of a task runs once; a task is queued at most once per cycle; edge memory is written on every iteration path from this cycle\'s sample, period memory only under the periodic condition and set to now (no replay), overruns saturate; background set agrees between its two computations. The due-ness arithmetic (>=, elapsed) is not decided.',
+      _TB, 'DESIGN.md section 4 / C06')
+
 _PENDING = 'check not built yet in this commit (work in progress; see DESIGN.md section 10 for the build order)'
-for _p in ['C02','C03','C04','C05','C06','C13','C16']:
+for _p in ['C02','C03','C04','C13','C16']:
     na(_p, _PENDING)
 na('C15', 'formatting token-sequence preservation and idempotence are equalities between values computed by string manipulation; no shape-of-code fact is a necessary condition that a realistic breaking edit would violate (DESIGN.md section 5)')
